@@ -1289,6 +1289,14 @@ def make_learner_case(rng, ghost_p=0.2):
     m = pb.rand_pomdp(rng, n_na=n_na, n_abs=n_abs, K=rng.choice([1, 2, 2, 2, 3, 3]), NO=rng.choice([1, 2, 2, 2, 3]),
                       PD=rng.choice([2, 4]), OD=rng.choice([2, 4]), GN=GN, GD=GD, ghost=ghost, ID=rng.choice([2, 4]),
                       obs_kind=rng.choice(["random"] * 6 + ["single", "identity"]), init_on_abs=0.15)
+    if m["K"] >= 2 and rng.random() < 0.35:
+        # the same action under two names (identical dynamics, rewards and observations): exact ties between actions
+        # wherever the learners compare one-step look-ahead values
+        j, k = rng.sample(range(m["K"]), 2)
+        for s_ in range(m["N"]):
+            m["P"][s_][k] = list(m["P"][s_][j])
+            m["R"][s_][k] = list(m["R"][s_][j])
+        m["O"][k] = [list(r) for r in m["O"][j]]
     rep = dict(labels=rng.choice(SLABELS), alabels=rng.choice(SLABELS), olabels=rng.choice(OLABELS),
                explicit_list=True if not gen.ghost_closed(m) else rng.random() < 0.5,
                dist=rng.choice(DISTS), odist=rng.choice(DISTS), arr="numpy", eta3=False, with_init=True,
